@@ -37,6 +37,7 @@ var Prop = &engine.Prop{
 	ShardsQuick: 4, ShardsThorough: 160,
 	Kinds: []engine.Kind{
 		{Name: "rt_direct", Quick: 1200, Thorough: 360000, Fn: rtDirectCase},
+		{Name: "rt_retained", Quick: 1500, Thorough: 150000, Fn: rtRetainedCase},
 		{Name: "rt_json", Quick: 1200, Thorough: 360000, Fn: rtJSONCase},
 		{Name: "rt_sql", Quick: 800, Thorough: 240000, Fn: rtSQLCase},
 		{Name: "hex", Quick: 800, Thorough: 240000, Fn: hexCase},
